@@ -75,7 +75,27 @@ def markers_of(reqs: List[Any]) -> List[str]:
     return [str(r.marker) for r in reqs if r.marker is not None]
 
 
+def install_node_counter(D) -> None:
+    """every DependencyNode created from now on is appended to History.current.all_nodes"""
+    if not hasattr(D.DependencyNode, "_verif_orig_init"):
+        D.DependencyNode._verif_orig_init = D.DependencyNode.__init__
+    base_init = D.DependencyNode._verif_orig_init
+
+    def counting_init(node, key, metadata):
+        base_init(node, key, metadata)
+        if History.current is not None:
+            History.current.all_nodes.append(node)
+    D.DependencyNode.__init__ = counting_init
+
+
+class _Recorder:
+    def __init__(self) -> None:
+        self.all_nodes: List[Any] = []
+
+
 class History:
+    current: Any = None
+
     def __init__(self, ctx: Ctx, mods, alphabet, xorder) -> None:
         self.C, self.D, self.U = mods
         self.rng = ctx.rng
@@ -83,6 +103,10 @@ class History:
         self.xorder = xorder
         self.U.parse_requirement.cache_clear()
         self.dists = self.D.DistributionCollection()
+        # node objects in creation order = the model's node identities (heap ids)
+        self.all_nodes: List[Any] = []
+        install_node_counter(self.D)
+        History.current = self
         self.ops: List[List[str]] = []
         self.desc: List[str] = []
         self.obs: List[Any] = []
@@ -117,17 +141,23 @@ class History:
 
     def op_add(self, md, name: Optional[str], source, reason) -> bool:
         nm = md.name if md is not None else name
-        toks = ["A", hx(nm)] + (["S"] + graphenc.dist_tokens(md) if md is not None else ["N"])
-        toks += graphenc.opt_str(source.key if source is not None else None)
+        stale = source is not None and self.dists.nodes.get(source.key) is not source
+        if stale:
+            # a node object that is no longer the one indexed under its key: addressed by its identity
+            toks = ["AF", hx(nm)] + (["S"] + graphenc.dist_tokens(md) if md is not None else ["N"])
+            toks += [str(self.all_nodes.index(source))]
+        else:
+            toks = ["A", hx(nm)] + (["S"] + graphenc.dist_tokens(md) if md is not None else ["N"])
+            toks += graphenc.opt_str(source.key if source is not None else None)
         toks += graphenc.opt_req(reason)
         if reason is not None and reason.marker is not None:
             self.markers.append(str(reason.marker))
         arg = md if md is not None else name
-        self.pyops.append(("A", nm, md, source.key if source is not None else None, reason))
-        self.jsonops.append({"op": "A", "name": nm,
+        self.pyops.append(("AF" if stale else "A", nm, md, (self.all_nodes.index(source) if stale else source.key) if source is not None else None, reason))
+        self.jsonops.append({"op": "AF" if stale else "A", "name": nm,
                              "dist": None if md is None else {"name": md.name, "version": None if md.version is None else str(md.version),
                                                                "reqs": [str(r) for r in md.reqs], "meta": bool(md.meta)},
-                             "source": source.key if source is not None else None,
+                             "source": (self.all_nodes.index(source) if stale else source.key) if source is not None else None,
                              "reason": None if reason is None else str(reason)})
         return self.apply(f"add_dist({nm}{'' if md is None else '=='+str(md.version)}, {source.key if source else None}, {reason})",
                           toks, lambda: self.dists.add_dist(arg, source, reason))
@@ -187,6 +217,10 @@ class History:
             md = self.mk_dist(proj, rng.choice(VERSIONS))
             srcs = [s for s in n.reverse_deps if d.nodes.get(s.key) is s]
             source = rng.choice(srcs) if srcs and rng.random() < 0.85 else None
+            stale_nodes = [s for s in self.all_nodes if d.nodes.get(s.key) is not s]
+            if stale_nodes and rng.random() < 0.25:
+                # the solver passes on node objects it obtained before a removal cascade dropped them
+                source = rng.choice(stale_nodes)
             reason = source.dependencies.get(n) if source is not None else None
             if source is None and rng.random() < 0.3:
                 reason = self.U.parse_requirement(gen_req_text(rng, self.alphabet, [proj]))
@@ -349,16 +383,21 @@ def run_jsonops(jsonops: List[Any]) -> Dict[str, Any]:
     """Replays a recorded history on a fresh DistributionCollection of /repo."""
     C, D, U = _setup()
     U.parse_requirement.cache_clear()
+    install_node_counter(D)
+    History.current = _Recorder()
     d = D.DistributionCollection()
     for k, op in enumerate(jsonops):
         try:
-            if op["op"] == "A":
+            if op["op"] in ("A", "AF"):
                 md = None
                 if op["dist"] is not None:
                     dd = op["dist"]
                     md = C.DistInfo(dd["name"], None if dd["version"] is None else U.parse_version(dd["version"]),
                                     [U.parse_requirement(r) for r in dd["reqs"]], meta=dd["meta"])
-                src = d.nodes[op["source"]] if op["source"] is not None else None
+                if op["op"] == "AF":
+                    src = History.current.all_nodes[op["source"]]
+                else:
+                    src = d.nodes[op["source"]] if op["source"] is not None else None
                 reason = U.parse_requirement(op["reason"]) if op["reason"] is not None else None
                 d.add_dist(md if md is not None else op["name"], src, reason)
             elif op["op"] == "I":
